@@ -1,7 +1,8 @@
 (* C19 - streaming content decoding equals one-shot decoding for every split.
    Only property theorems here, each closed by [exact]. *)
 From Coq Require Import List NArith Bool Lia.
-From Wpull Require Import Lib.Conn Model.Decomp Model.DecompGlue Proofs.DecompProofs Proofs.DecompGlueProofs.
+From Wpull Require Import Lib.Conn Model.Decomp Model.DecompGlue Model.DecompWrap
+  Proofs.DecompProofs Proofs.DecompGlueProofs Proofs.DecompWrapProofs.
 Import ListNotations.
 Open Scope N_scope.
 
@@ -145,3 +146,141 @@ Proof.
   repeat (first [apply framed_chunk | apply framed_last]); try (intro; discriminate);
     first [apply L2 | apply L]; try (cbn; lia); repeat constructor; intro; discriminate.
 Qed.
+
+(* ---------------------------------------------------------------------------
+   What the model says about bodies the property text does not single out.
+
+   Multi-member gzip / trailing garbage.  Under the zlib law "after the end
+   marker further input is swallowed" (an explicit premise; sampled against the
+   real zlib on every run): if [s] is a body the decoder recognises as
+   compressed and decodes to [out], then [s ++ junk] - a second gzip member,
+   padding, garbage - decodes to the same [out] under every split: only the
+   first member is returned and nothing after the end marker is looked at, in
+   streaming and one-shot mode alike (as zlib.decompress does). *)
+Theorem C19_data_after_end_marker_ignored :
+  forall zst zinit zstep zeof zfl,
+    (forall z b, zeof z = true ->
+       exists z', zstep z b = Some (z', []) /\ zeof z' = true /\ zfl z' = zfl z) ->
+    forall (k : kind) (pieces : list (list N)) (s junk out : list N),
+      engaged k s = true ->
+      Forall (fun p => p <> []) pieces -> concat pieces = s ++ junk ->
+      reference zst zinit zstep zeof zfl k s = Some out ->
+      run zst zinit zstep zeof zfl k pieces = Some out.
+Proof. exact run_ignores_data_after_end_marker. Qed.
+Print Assumptions C19_data_after_end_marker_ignored.
+
+(* zlib-or-raw sniff.  A body is handed to the zlib decoder only if its first
+   two bytes, read as raw deflate, open a non-final stored block with a non-zero
+   padding bit; and never when the FDICT bit (preset dictionary) is set. *)
+Theorem C19_zlib_sniff_shape :
+  forall c f : N,
+    (is_zlib_header c f = true -> N.land c 7 = 0 /\ N.testbit c 3 = true)
+    /\ (N.testbit f 5 = true -> is_zlib_header c f = false).
+Proof. exact (fun c f => conj (zlib_header_as_raw_deflate c f) (fdict_is_not_zlib_header c f)). Qed.
+Print Assumptions C19_zlib_sniff_shape.
+
+(* Non-vacuity: the toy machine satisfies the law, and a two-member body gives
+   the first member under a 3-piece split; of the 65536 possible first two bytes
+   exactly 32 (8 window sizes x 4 levels) select the zlib decoder. *)
+Definition all_bytes : list N := map N.of_nat (seq 0 256).
+Definition zlib_header_count : nat :=
+  length (filter (fun cf => is_zlib_header (fst cf) (snd cf)) (list_prod all_bytes all_bytes)).
+Example C19_after_eof_nonvacuous :
+  (forall z b, (fun s : bool => s) z = true ->
+     exists z', toy_step z b = Some (z', []) /\ (fun s : bool => s) z' = true /\ (fun _ : bool => @nil N) z' = (fun _ : bool => @nil N) z)
+  /\ run bool (fun _ => false) toy_step (fun s => s) (fun _ => []) KGzip [[31; 7]; [0; 31]; [9; 0; 255]] = Some [31; 7]
+  /\ is_zlib_header 120 156 = true /\ is_zlib_header 120 187 = false /\ is_zlib_header 136 28 = false
+  /\ is_zlib_header 8 29 = true /\ is_zlib_header 120 157 = false
+  /\ zlib_header_count = 32%nat.
+Proof.
+  split; [|vm_compute; repeat split].
+  intros z b Hz. cbn in Hz. subst z. exists true. cbn. repeat split.
+Qed.
+
+(* ---------------------------------------------------------------------------
+   Concrete wrappers (Model/DecompWrap.v): the zlib (RFC 1950) and gzip (RFC 1952)
+   framing, Adler-32 and CRC-32 are Gallina; only the RAW inflater stays abstract
+   ([rstep], [reof]) and the theorems hold for EVERY raw inflater.  The wrapped
+   machine is compared byte for byte with the real zlib on every run.
+
+   gzip: for every split, a gzip-declared body that starts with 0x1f is decoded
+   successfully ONLY IF it is 1f 8b 08 flg (no reserved flag) ... deflate-data
+   CRC32 ISIZE [ignored data] where the raw inflater turns deflate-data into
+   exactly [out], CRC-32(out) and |out| mod 2^32 are what the trailer says -
+   otherwise the result is an error.  In particular plaintext that happens to
+   start with 0x1f is never passed through, and nothing with a wrong checksum or
+   length is returned. *)
+Theorem C19_wrapped_gzip_success :
+  forall rst rinit rstep reof (pieces : list (list N)) out,
+    Forall (fun p => p <> []) pieces ->
+    run (wst rst) (winit rst rinit) (wstep rst rinit rstep reof) (weof rst reof) (wfl rst) KGzip pieces = Some out ->
+    match concat pieces with
+    | [] => out = []
+    | b :: _ =>
+        if b =? 31 then
+          (exists flg rest, concat pieces = 31 :: 139 :: 8 :: flg :: rest /\ N.land flg 224 = 0)
+          /\ exists hdr deflate b0 b1 b2 b3 b4 b5 b6 b7 junk r',
+              concat pieces = hdr ++ deflate ++ [b0; b1; b2; b3; b4; b5; b6; b7] ++ junk
+              /\ zfeed rst rstep rinit deflate = Some (r', out) /\ reof r' = true
+              /\ le32 b0 b1 b2 b3 = crc32 out
+              /\ le32 b4 b5 b6 b7 = N.of_nat (length out) mod 4294967296
+        else out = concat pieces
+    end.
+Proof. exact wrapped_gzip_success. Qed.
+Print Assumptions C19_wrapped_gzip_success.
+
+(* deflate with a zlib header: success ONLY IF the rest is deflate-data followed
+   by the big-endian Adler-32 of exactly the returned bytes *)
+Theorem C19_wrapped_zlib_success :
+  forall rst rinit rstep reof (pieces : list (list N)) out c f rest,
+    Forall (fun p => p <> []) pieces -> concat pieces = c :: f :: rest -> is_zlib_header c f = true ->
+    run (wst rst) (winit rst rinit) (wstep rst rinit rstep reof) (weof rst reof) (wfl rst) KDeflate pieces = Some out ->
+    exists deflate b0 b1 b2 b3 junk r',
+      rest = deflate ++ [b0; b1; b2; b3] ++ junk
+      /\ zfeed rst rstep rinit deflate = Some (r', out) /\ reof r' = true
+      /\ be32 b0 b1 b2 b3 = adler32 out.
+Proof. exact wrapped_zlib_success. Qed.
+Print Assumptions C19_wrapped_zlib_success.
+
+(* wpull's two-byte sniff is exactly zlib's own header acceptance (CM = 8,
+   CINFO <= 7, FCHECK) minus the preset-dictionary case: a body goes to the zlib
+   decoder iff zlib, fed its first two bytes, starts inflating *)
+Theorem C19_sniff_agrees_with_zlib :
+  forall rst rinit rstep reof (c f : N),
+    is_zlib_header c f = true <->
+    zfeed (wst rst) (wstep rst rinit rstep reof) (winit rst rinit W15) [c; f]
+    = Some (WZ rst (ZW_body rst rinit adler_init), []).
+Proof. exact sniff_agrees_with_zlib. Qed.
+Print Assumptions C19_sniff_agrees_with_zlib.
+
+(* data after the end marker is ignored - here without any premise about zlib:
+   for the wrapped machine the law is proved *)
+Theorem C19_wrapped_data_after_end_marker_ignored :
+  forall rst rinit rstep reof (k : kind) (pieces : list (list N)) (s junk out : list N),
+    engaged k s = true ->
+    Forall (fun p => p <> []) pieces -> concat pieces = s ++ junk ->
+    reference (wst rst) (winit rst rinit) (wstep rst rinit rstep reof) (weof rst reof) (wfl rst) k s = Some out ->
+    run (wst rst) (winit rst rinit) (wstep rst rinit rstep reof) (weof rst reof) (wfl rst) k pieces = Some out.
+Proof. exact wrapped_ignores_data_after_end_marker. Qed.
+Print Assumptions C19_wrapped_data_after_end_marker_ignored.
+
+(* Non-vacuity: a toy raw inflater (copy bytes, 0 ends the stream) inside the
+   real framing: a gzip member with FNAME, in three pieces incl. a one-byte first
+   piece, decodes; with a wrong CRC byte, a wrong magic byte or cut short it is an
+   error; a zlib stream 78 9c .. with the right Adler-32 decodes, followed by junk
+   too, with a wrong one not; CRC-32 and Adler-32 agree with the reference values
+   of "hello". *)
+Definition toy_raw (s : bool) (b : N) : option (bool * list N) :=
+  if b =? 0 then Some (true, []) else if b =? 255 then None else Some (false, [b]).
+Notation toy_wrun := (run (wst bool) (winit bool false) (wstep bool false toy_raw (fun s => s)) (weof bool (fun s => s)) (wfl bool)).
+Example C19_wrapped_nonvacuous :
+  toy_wrun KGzip [[31]; [139; 8; 8; 0; 0; 0; 0; 0; 3; 97; 0; 7]; [8; 0; 10; 12; 67; 0; 2; 0; 0; 0]] = Some [7; 8]
+  /\ toy_wrun KGzip [[31]; [139; 8; 8; 0; 0; 0; 0; 0; 3; 97; 0; 7]; [8; 0; 10; 12; 67; 1; 2; 0; 0; 0]] = None
+  /\ toy_wrun KGzip [[31]; [140; 8; 8; 0; 0; 0; 0; 0; 3; 97; 0; 7]; [8; 0; 10; 12; 67; 0; 2; 0; 0; 0]] = None
+  /\ toy_wrun KGzip [[31]; [139; 8; 8; 0; 0; 0; 0; 0; 3; 97; 0; 7]; [8; 0; 10; 12; 67; 0; 2; 0; 0]] = None
+  /\ toy_wrun KDeflate [[120]; [156; 7; 8; 0; 0; 24]; [0; 16]] = Some [7; 8]
+  /\ toy_wrun KDeflate [[120]; [156; 7; 8; 0; 0; 24]; [0; 16; 1; 2; 3]] = Some [7; 8]
+  /\ toy_wrun KDeflate [[120]; [156; 7; 8; 0; 0; 24]; [0; 17]] = None
+  /\ toy_wrun KDeflate [[1; 7]; [8; 0; 9]] = Some [1; 7; 8]
+  /\ crc32 [104; 101; 108; 108; 111] = 907060870 /\ adler32 [104; 101; 108; 108; 111] = 103547413.
+Proof. vm_compute. repeat split. Qed.
